@@ -820,8 +820,24 @@ class VG:
                     fv = ('fieldof', v, f['name'])
                 self.bind_pat(f['pat'], fv, fr)
             return
+        if k == 'por' and p.get('pats'):
+            # `(x, None) | (None, x)`: every alternative binds the same names; a name's value is that of the first alternative
+            # that matches
+            per_alt = []
+            for alt in p['pats']:
+                tmp = Frame(fr.fn, fr.prefix, fr.selfid)
+                tmp.locals = dict(fr.locals)
+                self.bind_pat(alt, v, tmp)
+                per_alt.append((self.pat_cond(alt, v), {bid: tmp.locals.get(bid) for bid, _ in _pat_ids(alt)}))
+            ids = [bid for bid, _ in _pat_ids(p['pats'][0])]
+            for bid in ids:
+                acc = per_alt[-1][1].get(bid, unk('pattern-binding'))
+                for cond_, vals_ in reversed(per_alt[:-1]):
+                    acc = phi(cond_, vals_.get(bid, unk('pattern-binding')), acc)
+                fr.locals[bid] = acc
+            return
         for (bid, name) in _pat_ids(p):
-            fr.locals[bid] = unk('pattern-binding')
+            fr.locals[bid] = self.note_unknown('pattern-binding', None)
 
     # ------------------------------------------------------------------ expressions
     def value(self, e, fr):
